@@ -16,6 +16,7 @@ Routing between concurrent operations: `Model/Life.lean`.
 -/
 import A10Verif.Lemmas.OpResults
 import A10Verif.Model.Life
+import A10Verif.Lemmas.LifeRefine
 
 namespace A10.OpSys
 open A10
@@ -287,3 +288,16 @@ example :
     validRun (init true) es = true ∧ (run (init true) es).delivered = [3, 4, 0] ∧
     ((run (init true) es).op.poll 1 true).2.1 = .readyNone := by decide
 end A10.OpSys
+
+namespace A10.Life
+open A10
+
+/-- **Dispatch never hits `unreachable!()`**: in every reachable state of the multi-operation
+system, processing the completion queue never delivers a completion to an operation that is not
+running (`Shared::update`'s `NotStarted | Complete => unreachable!()` arm), i.e. never a result
+for a submission that does not exist: the `panicked` flag is unchanged by `drainCq`. -/
+theorem C02_system_no_stray_completion {s : Sys} (hr : Reachable s) (a : Acc) :
+    (s.drainCq a).snd.panicked = a.panicked :=
+  life_no_panic hr a
+
+end A10.Life
